@@ -94,63 +94,12 @@ Fixpoint siblings_of (id : nat) (t : tree) {struct t} : option (list tree * nat)
 Definition node_at (l : list tree) (n : nat) : option node :=
   match nth_error l n with Some t => Some (t_node t) | None => None end.
 
-(* class 3 "adjacent lists": the blocks written for the result contain two lists of the same
-   type next to each other in one context (top level, quote body, item body): any Markdown
-   reader takes them for one list *)
-Definition same_list (a b : gblock) : bool :=
-  match a, b with
-  | GBList _, GBList _ | GOList _, GOList _ => true
-  | _, _ => false
-  end.
-Fixpoint adjacent_in (l : list gblock) : bool :=
-  match l with
-  | a :: ((b :: _) as r) => same_list a b || adjacent_in r
-  | _ => false
-  end.
-Fixpoint g_adjacent (b : gblock) {struct b} : bool :=
-  let fix go (l : list gblock) : bool := match l with [] => false | x :: r => g_adjacent x || go r end in
-  let fix goi (l : list (list gblock)) : bool := match l with [] => false | x :: r => adjacent_in x || go x || goi r end in
-  match b with
-  | GQuote bs => adjacent_in bs || go bs
-  | GOList its | GBList its => goi its
-  | _ => false
-  end.
-Definition adjacent_lists (bs : list gblock) : bool := adjacent_in bs || existsb g_adjacent bs.
-
 (* class 6 "follows a section": the section to convert has a previous sibling that is a section.
    The list written for it comes after that sibling's text and is read back as part of it. *)
 Definition follows_section (tree : tree) (scope : nat) : bool :=
   match siblings_of scope tree with
   | Some (sibs, S p) => match node_at sibs p with Some (NSection _) => true | _ => false end
   | _ => false
-  end.
-
-Fixpoint max_level (b : gblock) : nat :=
-  let fix go (l : list gblock) : nat := match l with [] => 0 | x :: r => Nat.max (max_level x) (go r) end in
-  let fix goi (l : list (list gblock)) : nat := match l with [] => 0 | x :: r => Nat.max (go x) (goi r) end in
-  match b with
-  | GHeader n _ => n
-  | GQuote bs => go bs
-  | GOList its | GBList its => goi its
-  | _ => 0
-  end.
-Definition max_levels (bs : list gblock) : nat := fold_right (fun b n => Nat.max (max_level b) n) 0 bs.
-
-(* a tight item in which a rule or a table follows the item text (read back as a setext heading /
-   as continuation text): what section -> list writes for a section whose body has such a block
-   and at most one paragraph *)
-Fixpoint g_calm (b : gblock) {struct b} : bool :=
-  let fix go (l : list gblock) : bool := match l with [] => true | x :: r => g_calm x && go r end in
-  let fix goi (tight : bool) (l : list (list gblock)) : bool :=
-    match l with
-    | [] => true
-    | it :: r => negb (tight && existsb (fun x => match x with GRule | GTable _ _ _ => true | _ => false end) it)
-                 && go it && goi tight r
-    end in
-  match b with
-  | GQuote bs => go bs
-  | GOList its | GBList its => goi (negb (is_sparse its)) its
-  | _ => true
   end.
 
 (* ---------- per-action evaluation ---------------------------------------------------------- *)
@@ -164,8 +113,6 @@ Definition explain_C10 (p : N) : list N :=
   | 5%N => [2; 3; 4; 5; 6]%N
   | _ => []
   end.
-
-Definition note_atoms (key : string) (bs : list dblock) : list string := atoms (key_parent key) bs.
 
 Definition single_update (key : string) (l : list och) : option string :=
   match l with
